@@ -344,8 +344,24 @@ impl Lowerer<'_> {
             let to_drop = self.stack_slots.pop().unwrap();
 
             if let Some(guard) = &arm.guard {
-                let op = self.expr(guard);
-                let op = self.assign_to_var(op, TyRef::BOOL);
+                // The guard only runs when this variant is matched, so its
+                // temporaries cannot live in the enclosing frame: that frame
+                // is also dropped when another variant was taken and the
+                // temporaries were never initialized.
+                self.stack_slots.push(Vec::new());
+
+                let val = self.expr(guard);
+                let op = self.undropped_tmp();
+                self.do_assign(
+                    Place::new(op.clone(), TyRef::BOOL),
+                    TyRef::BOOL,
+                    val,
+                );
+
+                let guard_tmps = self.stack_slots.pop().unwrap();
+                for (var, ty) in guard_tmps.into_iter().rev() {
+                    self.emit_drop(Place::new(var, ty), ty);
+                }
 
                 let ident = Identifier::from(format!("guard_{}_drop", i));
                 let intermediate_lbl =
